@@ -622,7 +622,7 @@ def gen_sok(ctx, exe, cid, cv, scale, pool, lvl=2):
     lens = [0, 1, 32, 64, 119, 300] if ctx.tier == "quick" else MSGLENS
     if lvl < 2:
         lens = [rng.choice(lens[:3]), rng.choice(lens[3:])]
-    reps = scale if ctx.tier == "quick" else 3 * scale
+    reps = scale if ctx.tier == "quick" else 2 * scale
     pl, meta = [], []
     for _ in range(reps):
         x = rnd_scalar(rng, n)
@@ -740,7 +740,7 @@ def gen_ers(ctx, exe, cid, cv, scale, pool, link=False, lvl=2):
     pre = ["ep_param %d" % cid]
     op = "smlers" if link else "ers"
     lines = [] if link else ["ers_gen %s" % seedhex(rng)]
-    sizes = ([1, 3] if link else [1, 2, 4]) if ctx.tier == "quick" else ([1, 2, 3, 4] if link else [1, 2, 3, 4, 5, 6])
+    sizes = ([1, 3] if link else [1, 2, 4]) if ctx.tier == "quick" else ([1, 2, 4] if link else [1, 2, 3, 5, 6])
     if lvl < 2:
         sizes = [rng.choice([1, 2]) if link else rng.choice([1, 2, 3])]
     rl, meta = [], []
@@ -884,6 +884,54 @@ def gen_etrs(ctx, exe, cid, cv, scale, pool, lvl=2):
 PAIRING_CURVES = [23, 24]      # BN_P256 (pc_param_set_any), SM9_P256
 
 
+def _sqrt_fp(a, p):
+    """square root modulo p (Tonelli-Shanks) or None"""
+    a %= p
+    if a == 0:
+        return 0
+    if pow(a, (p - 1) // 2, p) != 1:
+        return None
+    if p % 4 == 3:
+        return pow(a, (p + 1) // 4, p)
+    q, s = p - 1, 0
+    while q % 2 == 0:
+        q //= 2
+        s += 1
+    z = 2
+    while pow(z, (p - 1) // 2, p) != p - 1:
+        z += 1
+    m, c, t, r = s, pow(z, q, p), pow(a, q, p), pow(a, (q + 1) // 2, p)
+    while t != 1:
+        i, t2 = 0, t
+        while t2 != 1:
+            t2 = t2 * t2 % p
+            i += 1
+        b = pow(c, 1 << (m - i - 1), p)
+        m, c, t, r = i, b * b % p, t * b * b % p, r * b % p
+    return r
+
+
+def twist_point(rng, p, beta, tb):
+    """a random point of the twist y^2 = x^3 + b' over Fp2 = Fp[u]/(u^2 - beta): almost surely outside the order-n subgroup"""
+    def mul(a, b):
+        return ((a[0] * b[0] + beta * a[1] * b[1]) % p, (a[0] * b[1] + a[1] * b[0]) % p)
+    for _ in range(200):
+        x = (rng.bits(300) % p, rng.bits(300) % p)
+        x3 = mul(mul(x, x), x)
+        a = ((x3[0] + tb[0]) % p, (x3[1] + tb[1]) % p)
+        # sqrt(a0 + a1 u): norm N = a0^2 - beta a1^2 = s^2; y0^2 = (a0 + s)/2, y1 = a1/(2 y0)
+        s_ = _sqrt_fp(a[0] * a[0] - beta * a[1] * a[1], p)
+        if s_ is None:
+            continue
+        for sg in (s_, p - s_):
+            y0 = _sqrt_fp((a[0] + sg) * pow(2, -1, p), p)
+            if y0:
+                y = (y0, a[1] * pow(2 * y0, -1, p) % p)
+                if mul(y, y) == a:
+                    return [x[0], x[1], y[0], y[1]]
+    return None
+
+
 def g2raw(coords, dy=0):
     c = list(coords)
     c[2] += dy
@@ -917,8 +965,17 @@ def gen_pairing(ctx, exe, cid, cv, scale, lvl=2):
     def altp(P, heavy):
         return alter_pt(rng, cv, P, heavy, pool)
 
-    # ---- G2 membership: what g2_is_valid says about multiples of the generator, the identity and junk
+    # ---- G2 membership: what g2_is_valid says about multiples of the generator, the identity, junk, and points of the twist outside G2
     lines += ["g2_check k:%x" % rnd_scalar(rng, n), "g2_check k:0", "g2_check k:%x" % n, "g2_check inf", "g2_check raw:1,2,3,4"]
+    info = kv(ask(exe, [], pre)[0])
+    outside = []
+    if "tb0" in info:
+        beta = int(info["qnr"]) % cv.p
+        for _ in range(3 if heavy0 else 2):
+            tp = twist_point(rng, cv.p, beta, (int(info["tb0"], 16), int(info["tb1"], 16)))
+            if tp:
+                outside.append(g2raw(tp))
+                lines.append("g2_check " + outside[-1])
     # ---- key generation (all schemes), first pass
     gl = ["bls_gen %s" % seedhex(rng), "bbs_gen %s" % seedhex(rng), "zss_gen %s" % seedhex(rng), "cls_gen %s" % seedhex(rng),
           "cli_gen %s" % seedhex(rng), "clb_gen %s 1" % seedhex(rng), "clb_gen %s 3" % seedhex(rng), "pss_gen %s" % seedhex(rng),
@@ -1006,8 +1063,11 @@ def gen_pairing(ctx, exe, cid, cv, scale, lvl=2):
                 V(S_=P)
             for mm in mutate_msg(rng, m)[:(7 if heavy else 2)]:
                 V(m_=mm)
-            for K in key_alts(rng, n, d, qc, heavy):
+            for K in key_alts(rng, n, d, qc, heavy) + outside[:(None if heavy else 1)]:
                 V(K_=K)
+            # identity signature under the identity key: the pairing product is trivially 1
+            V(S_=None, K_="inf")
+            V(S_=None, K_="k:0")
             hm = parse_pt(k["hm"])
             d2 = rnd_scalar(rng, n)
             V(S_=cv.mul(hm, d2), K_="k:%x" % d2)     # a signature under another key, presented with that key: valid
